@@ -440,8 +440,10 @@ impl<K: StructuralWritable, V: StructuralWritable> Encoder<MapOperation<K, V>>
 #[derive(Debug, Default, Clone, Copy)]
 struct MessageEncoder<Inner>(Inner);
 
+/// The flag is set while the inner decoder is part way through an operation (in which case the
+/// buffer does not start with a header).
 #[derive(Debug, Default, Clone, Copy)]
-struct MessageDecoder<Inner>(Inner);
+struct MessageDecoder<Inner>(Inner, bool);
 
 impl<K, V, Inner> Encoder<MapMessage<K, V>> for MessageEncoder<Inner>
 where
@@ -484,7 +486,12 @@ where
     type Error = FrameIoError;
 
     fn decode(&mut self, src: &mut BytesMut) -> Result<Option<Self::Item>, Self::Error> {
-        let MessageDecoder(inner) = self;
+        let MessageDecoder(inner, in_operation) = self;
+        if *in_operation {
+            let result = inner.decode(src);
+            *in_operation = matches!(result, Ok(None));
+            return Ok(result?.map(Into::into));
+        }
         if src.remaining() < TAG_SIZE + LEN_SIZE {
             src.reserve(TAG_SIZE + LEN_SIZE);
             return Ok(None);
@@ -512,8 +519,9 @@ where
                 }))
             }
             _ => {
-                let result = inner.decode(src)?;
-                Ok(result.map(Into::into))
+                let result = inner.decode(src);
+                *in_operation = matches!(result, Ok(None));
+                Ok(result?.map(Into::into))
             }
         }
     }
